@@ -96,7 +96,7 @@ func TestC18(t *testing.T) {
 		}
 		return p[0], nil
 	}}, &jhttp.BridgeOptions{Server: &jrpc2.ServerOptions{Concurrency: 8}})
-	defer br.Close()
+	defer closeWithin(res, "Bridge.Close", br.Close)
 	var hungOnce sync.Once
 	var hung atomic.Bool // a request was never answered: the bridge is wedged, stop sending
 	post := func(body string) *httptest.ResponseRecorder {
@@ -310,6 +310,145 @@ func TestC18(t *testing.T) {
 		}
 		mu.Unlock()
 	}
+	c18PushBridge(res, rng)
+}
+
+// c18PushBridge: a bridge whose server may call back into the bridge's client (Server.AllowPush +
+// Client.OnCallback). The server's callback ids and the bridge client's request ids are
+// independent counters that both start at 1, so the ids of the HTTP callers' forwarded calls collide
+// with the ids of callbacks that are still unanswered; every HTTP caller must still get exactly its
+// own answer, and every handler run once.
+func c18PushBridge(res *Result, rng *rand.Rand) {
+	var mu sync.Mutex
+	ran := map[string]int{}
+	cbBad := ""
+	// a fresh bridge per round: both counters restart at 1, which is where they collide
+	newBridge := func() jhttp.Bridge {
+		return jhttp.NewBridge(handler.Map{"p": func(ctx context.Context, req *jrpc2.Request) (any, error) {
+			var p []string
+			req.UnmarshalParams(&p)
+			mu.Lock()
+			ran[p[0]]++
+			mu.Unlock()
+			n, _ := strconv.Atoi(p[1])
+			for i := 0; i < n; i++ {
+				rsp, err := jrpc2.ServerFromContext(ctx).Callback(ctx, "cb", []string{p[0]})
+				var got string
+				if err == nil {
+					err = rsp.UnmarshalResult(&got)
+				}
+				if err != nil || got != "cb-"+p[0] {
+					mu.Lock()
+					cbBad = fmt.Sprintf("callback %d of %s returned %q, %v", i+1, p[0], got, err)
+					mu.Unlock()
+				}
+			}
+			return p[0], nil
+		}}, &jhttp.BridgeOptions{
+			Server: &jrpc2.ServerOptions{Concurrency: 8, AllowPush: true},
+			Client: &jrpc2.ClientOptions{OnCallback: func(ctx context.Context, req *jrpc2.Request) (any, error) {
+				var p []string
+				req.UnmarshalParams(&p)
+				time.Sleep(time.Duration(rand.Intn(300)) * time.Microsecond) // the callback stays unanswered for a while
+				return "cb-" + p[0], nil
+			}},
+		})
+	}
+	who := 0
+	for round := 0; round < pick(120, 1200); round++ {
+		br := newBridge()
+		k := 2 + rng.Intn(3)
+		type one struct {
+			tag, id, body string
+			w             *httptest.ResponseRecorder
+		}
+		batch := make([]*one, k)
+		var bodies []string
+		for i := range batch {
+			who++
+			o := &one{tag: fmt.Sprintf("pb%d", who), id: fmt.Sprint(1 + rng.Intn(3))}
+			o.body = fmt.Sprintf(`{"jsonrpc":"2.0","id":%s,"method":"p","params":["%s","%d"]}`, o.id, o.tag, rng.Intn(4))
+			batch[i] = o
+			bodies = append(bodies, o.body)
+		}
+		if out := outPath(); out != "" {
+			b, _ := json.Marshal(map[string]any{"concurrent_http_bodies_to_push_bridge": bodies})
+			writeFileQuiet(out+".progress", b)
+		}
+		var wg sync.WaitGroup
+		hungNow := false
+		for _, o := range batch {
+			wg.Add(1)
+			stagger := time.Duration(rng.Intn(400)) * time.Microsecond
+			go func() {
+				defer wg.Done()
+				time.Sleep(stagger)
+				req := httptest.NewRequest("POST", "http://x/", strings.NewReader(o.body))
+				req.Header.Set("Content-Type", "application/json")
+				w := httptest.NewRecorder()
+				done := make(chan struct{})
+				go func() { br.ServeHTTP(w, req); close(done) }()
+				select {
+				case <-done:
+					o.w = w
+				case <-time.After(5 * time.Second):
+				}
+			}()
+		}
+		wg.Wait()
+		in := map[string]any{"concurrent_http_bodies_to_push_bridge": bodies, "bridge": "Server.AllowPush, Client.OnCallback; handler p issues params[1] callbacks"}
+		res.Case("pushbridge/"+strings.Join(bodies, "|"), true, in)
+		res.Count("push-bridge-round")
+		res.Traces++
+		ok := true
+		for _, o := range batch {
+			if o.w == nil {
+				ok, hungNow = false, true
+				res.Violatef("an HTTP request to the bridge was never answered", in, "%s: no response after 5s", o.body)
+				continue
+			}
+			var rsp struct {
+				ID     json.RawMessage `json:"id"`
+				Result string          `json:"result"`
+			}
+			if o.w.Code != 200 || json.Unmarshal(o.w.Body.Bytes(), &rsp) != nil || string(rsp.ID) != o.id || rsp.Result != o.tag {
+				ok = false
+				res.Violatef("bridge reply does not carry exactly the caller's own ids", in, "%s answered with status %d body %q", o.body, o.w.Code, o.w.Body.String())
+			}
+			mu.Lock()
+			if ran[o.tag] != 1 {
+				ok = false
+				res.Violatef(fmt.Sprintf("handler ran %d times for a call member", ran[o.tag]), in, "tag %s", o.tag)
+			}
+			mu.Unlock()
+		}
+		mu.Lock()
+		if cbBad != "" {
+			ok = false
+			res.Violatef("a handler's callback through the bridge client was answered by something else", in, "%s", cbBad)
+			cbBad = ""
+		}
+		mu.Unlock()
+		if ok {
+			res.Agreements++
+		}
+		if hungNow {
+			return // the bridge is wedged
+		}
+		closeWithin(res, "Bridge.Close (push-enabled bridge)", br.Close)
+	}
+}
+
+// closeWithin runs a shutdown call that must not stall the check: a bridge / client / server that
+// is wedged (a lost reply, a dead reader) would otherwise block here before the result is written.
+func closeWithin(res *Result, what string, f func() error) {
+	done := make(chan struct{})
+	go func() { f(); close(done) }()
+	select {
+	case <-done:
+	case <-time.After(10 * time.Second):
+		res.Violatef("shutdown never returned: "+what, what, "no return after 10s; the component is wedged (see the earlier violations of this run)")
+	}
 }
 
 // ---------------------------------------------------------------------------------------------
@@ -357,6 +496,9 @@ func (c *inprocHTTP) Do(req *http.Request) (*http.Response, error) {
 	if c.h != nil && status == 0 {
 		c.h.ServeHTTP(w, req)
 	} else {
+		if status != 200 && status != 204 {
+			w.Header().Set("Content-Length", "0") // what net/http's server writes for a body-less failure
+		}
 		w.WriteHeader(status)
 		if status == 200 {
 			w.Write([]byte(`{"jsonrpc":"2.0","id":1,"result":1}`))
@@ -404,8 +546,8 @@ func TestC19(t *testing.T) {
 	vals = append(vals, `"a b"`, `"é\n"`, `"é"`, `"bad\q"`, `"un"terminated"`, `'aGVsbG8='`, `'aGVsbG8'`, `'a'`, `'****'`, `''`, `'QUJD'`, `'QUJDRA=='`, `0x1p-2`, `1_000`, `1e5`, `1E5`, `0b101`, `0o17`, `010`, `-0017`,
 		`9223372036854775807`, `9223372036854775808`, `-9223372036854775808`, `-9223372036854775809`, strings.Repeat("9", 40),
 		// decimals that overflow float64 (and that underflow it): still numbers on the way in, marshalable on the way out
-		strings.Repeat("9", 310), "-" + strings.Repeat("7", 400), strings.Repeat("1", 320) + ".5", "0." + strings.Repeat("0", 400) + "1", "1" + strings.Repeat("0", 308), "1" + strings.Repeat("0", 309), "2" + strings.Repeat("0", 308),
-		"17976931348623157" + strings.Repeat("0", 292), "17976931348623159" + strings.Repeat("0", 292), "-17976931348623159" + strings.Repeat("9", 292) + ".9", "000" + strings.Repeat("9", 308), `3.`, `.5`, `-.5`, `+5`, `+-5`, `5..`, `1.2.3`, ` 5`, `5 `, `٣`, `tRue`, `nil`)
+		strings.Repeat("9", 310), "-"+strings.Repeat("7", 400), strings.Repeat("1", 320)+".5", "0."+strings.Repeat("0", 400)+"1", "1"+strings.Repeat("0", 308), "1"+strings.Repeat("0", 309), "2"+strings.Repeat("0", 308),
+		"17976931348623157"+strings.Repeat("0", 292), "17976931348623159"+strings.Repeat("0", 292), "-17976931348623159"+strings.Repeat("9", 292)+".9", "000"+strings.Repeat("9", 308), `3.`, `.5`, `-.5`, `+5`, `+-5`, `5..`, `1.2.3`, ` 5`, `5 `, `٣`, `tRue`, `nil`)
 	var lines, impl []string
 	for _, v := range vals {
 		req := httptest.NewRequest("GET", "http://x/m?v="+url.QueryEscape(v), nil)
@@ -708,7 +850,25 @@ func TestC19(t *testing.T) {
 	}, "fail": func(ctx context.Context, req *jrpc2.Request) (any, error) {
 		return nil, &jrpc2.Error{Code: 7, Message: "seven", Data: json.RawMessage(`[1]`)}
 	}}
-	br := jhttp.NewBridge(mux, nil)
+	// the bridge screens requests with a ParseRequest hook: method "deny" is answered by the bridge
+	// itself (the hook sets Error) and never forwarded; over the direct connection the same method
+	// is a handler that reports the same error, so the two must still be indistinguishable
+	denied := &jrpc2.Error{Code: 1234, Message: "denied"}
+	mux["deny"] = func(ctx context.Context, req *jrpc2.Request) (any, error) { return nil, denied }
+	hookMux := handler.Map{"echo": mux["echo"], "fail": mux["fail"]}
+	br := jhttp.NewBridge(hookMux, &jhttp.BridgeOptions{ParseRequest: func(req *http.Request) ([]*jrpc2.ParsedRequest, error) {
+		body, err := io.ReadAll(req.Body)
+		if err != nil {
+			return nil, err
+		}
+		prs, err := jrpc2.ParseRequests(body)
+		for _, pr := range prs {
+			if pr.Method == "deny" && pr.Error == nil {
+				pr.Error = denied
+			}
+		}
+		return prs, err
+	}})
 	hc := &inprocHTTP{h: br}
 	hcli := jrpc2.NewClient(jhttp.NewChannel("http://x/", &jhttp.ChannelOptions{Client: hc}), nil)
 	loc := server.NewLocal(mux, nil)
@@ -722,7 +882,7 @@ func TestC19(t *testing.T) {
 	bg := ctx
 	nviol := len(res.Violations)
 	for i := 0; i < pick(60, 600) && len(res.Violations) == nviol; i++ {
-		method := []string{"echo", "fail", "nope"}[rng.Intn(3)]
+		method := []string{"echo", "fail", "nope", "deny"}[rng.Intn(4)]
 		params := []any{nil, []int{i}, map[string]int{"k": i}}[rng.Intn(3)]
 		// a request that is never answered must not stall the check: every operation has a deadline
 		ctx, cancelOp := context.WithTimeout(bg, 3*time.Second)
@@ -744,7 +904,9 @@ func TestC19(t *testing.T) {
 			}
 		case 2:
 			specs := []jrpc2.Spec{{Method: method, Params: params}, {Method: "echo", Params: []int{1}, Notify: true}, {Method: "echo", Params: []int{2}}}
-			if i%2 == 0 { // the notification first
+			if i%3 == 2 { // two screened members around forwarded ones
+				specs = []jrpc2.Spec{{Method: "deny"}, {Method: method, Params: params}, {Method: "deny", Notify: true}, {Method: "echo", Params: []int{3}}, {Method: "deny", Params: []int{4}}, {Method: "echo", Params: []int{5}}}
+			} else if i%2 == 0 { // the notification first
 				specs = []jrpc2.Spec{{Method: "echo", Params: []int{1}, Notify: true}, {Method: method, Params: params}, {Method: "echo", Params: []int{2}}, {Method: "nope"}}
 			}
 			r1, e1 := hcli.Batch(ctx, specs)
@@ -762,9 +924,9 @@ func TestC19(t *testing.T) {
 			}
 		}
 	}
-	hcli.Close()
-	loc.Close()
-	br.Close()
+	closeWithin(res, "Client.Close over jhttp.Channel", hcli.Close)
+	closeWithin(res, "Local.Close", loc.Close)
+	closeWithin(res, "Bridge.Close", br.Close)
 	time.Sleep(5 * time.Millisecond)
 	hc.mu.Lock()
 	if hc.opened != hc.closed {
